@@ -1971,3 +1971,50 @@ Proof.
   destruct (strict_graph_all_histories g0 g1 ops HI H0) as (HIr & Hc & Hsg).
   apply strict_time; auto. apply windows_ok_of_inv. exact HIr.
 Qed.
+
+(* ================================================================== *)
+(** * 13. Strict timing along the ROUTE of a walk, without any hypothesis on the depot self-arc *)
+
+(* position s lies on the route of the walk: the vehicle is used (it leaves the depot at position 0) and has
+   not been back at the depot before s; s itself may be the position of the return.  What is excluded are
+   only the waiting moves depot -> depot, which are no moves of the underlying VRPTW *)
+Definition on_route (W : nat -> nat) (s : nat) : Prop :=
+  W 1%nat <> 0%nat /\ forall s', (1 <= s' < s)%nat -> W s' <> 0%nat.
+
+Theorem strict_time_route I W v :
+  strict_core (ig I) -> windows_ok (ig I) -> walk_assignment I W -> (v < iV I)%nat ->
+  forall s, (s < iL I)%nat -> on_route (W v) s ->
+    nlo (node_at I (W v s)) <= arrival I (W v) s /\
+    ext_le (Fin (arrival I (W v) s)) (nhi (node_at I (W v s))).
+Proof.
+  intros Hst Hwin HW Hv. induction s as [|s IH]; intros Hs [Hused Hroute].
+  - cbn [arrival]. split; [lia|]. apply Hwin. apply (wa_node I W HW); auto.
+  - assert (Hr' : on_route (W v) s) by (split; [exact Hused | intros s' Hs'; apply Hroute; lia]).
+    destruct (IH ltac:(lia) Hr') as [_ IH2]. cbn [arrival]. split; [apply Z.le_max_l|].
+    apply ext_max; [apply Hwin; apply (wa_node I W HW); auto|].
+    pose proof (wa_is_arc I W v s HW Hv Hs) as Ha. apply check_arc_iff in Ha.
+    unfold check_arc, dict_mem in Ha. unfold tt.
+    destruct (dict_get (W v s, W v (S s)) (arcs (ig I))) as [a|] eqn:Eg; [|discriminate].
+    apply dict_get_In in Eg. destruct (Hst _ _ _ Eg) as (C1 & C2).
+    unfold node_at in *. fold (gnode (ig I)) in *.
+    destruct (Nat.eq_dec (W v s) 0) as [E0|E0].
+    + destruct s as [|s].
+      * cbn [arrival]. rewrite E0. apply C2; auto.
+      * exfalso. apply (Hroute (S s)); [lia | exact E0].
+    + eapply ext_step; [exact IH2 | apply C1; auto].
+Qed.
+
+(* ... for every history of a strict object, the depot chosen or moved at any time, whatever arc is stored
+   under (0,0): every vehicle reaches every stop of its route, and the depot at the end of it, inside the window *)
+Theorem strict_time_route_all_histories g0 g1 ops V L vc W v :
+  Inv g0 -> seq_init true g0 = Ok g1 ->
+  let I := mkInst (run (Seq true) ops g1) V L vc in
+  walk_assignment I W -> (v < iV I)%nat ->
+  forall s, (s < iL I)%nat -> on_route (W v) s ->
+    nlo (node_at I (W v s)) <= arrival I (W v) s /\
+    ext_le (Fin (arrival I (W v) s)) (nhi (node_at I (W v s))).
+Proof.
+  intros HI H0 I HW Hv.
+  destruct (strict_graph_all_histories g0 g1 ops HI H0) as (HIr & Hc & _).
+  apply strict_time_route; auto. apply windows_ok_of_inv. exact HIr.
+Qed.
